@@ -1,7 +1,7 @@
 CONSTANTS Scope = "wide"
           Mech = "law"
           Loose = FALSE
-          PlanSet = {"FII", "SEFI", "FEFI", "FFII", "FRFI", "FIFI", "SEFII", "SFIFI"}
+          PlanSet = {"FII", "SEFI", "SEFII", "FEFI", "FFII", "FIFI"}
 INIT Init
 NEXT Next
 INVARIANT StepLaw
